@@ -86,6 +86,17 @@ def main(argv):
 
     # ---- 2. proof step
     target = f"Properties_{pid}.v"
+    mdrv_ok = status.get("_mdrv")
+    pdir = qdir
+    if target in vlib.GLOBALS_CONE:
+        # C19: the table theorems live in their own small build (regenerated GlobalsGen.v + Globals.v + this file)
+        try:
+            pdir, pstatus = vlib.build_globals(cdir)
+        except vlib.BuildError as e:
+            pdir, pstatus = qdir, {}
+            notes.append("globals build failed: " + str(e)[:200])
+        status = dict(pstatus); status["_mdrv"] = mdrv_ok
+    qdir_model, qdir = qdir, pdir
     cone = vlib.deps_cone(qdir, target)
     rel = [os.path.relpath(f, "coq") for f in cone]
     missing = [f for f in rel if not status.get(f)]
@@ -116,6 +127,7 @@ def main(argv):
     })
     ev["assumptions"] = list(getattr(P, "ASSUMPTIONS", []))
 
+    qdir = qdir_model
     # ---- 3/4. correspondence + monitors
     import inspect
     if len(inspect.signature(P.families).parameters) >= 3:
